@@ -19,6 +19,7 @@ LE = {"u8": 1, "u16": 2, "u32": 4, "u64": 8, "i8": 1, "i16": 2, "i32": 4, "i64":
 BE = {"u16_be": 2, "u32_be": 4, "u64_be": 8, "IpAddress": 4, "i32_be": 4, "f32_be": 4}
 BOOL = {"Bool": 1, "Bool16": 2, "Bool32": 4}
 MAX_UNROLL = 32          # total scalar reads allowed for one fixed array
+BOUNDED_N = 16           # frame bound of the bounded contracts of messages with strings / variable arrays
 MAX_BODY = 160           # symbolic buffer bound for a loop-free contract (larger ones are left to the thorough tier / skipped)
 
 
@@ -83,8 +84,10 @@ class Resolver:
 class Gen:
     """Emits the walker for one container in one version."""
 
-    def __init__(self, res):
+    def __init__(self, res, allow_loops=False):
         self.res = res
+        self.allow_loops = allow_loops
+        self.loops = False
         self.lines = []
         self.decls = []
         self.nvar = 0
@@ -178,6 +181,11 @@ class Gen:
             self.emit(ind, "let %s = %s;  // VariableItemRandomProperty %s: second u32 iff first != 0" % (v, self.rd(4), name))
             self.emit(ind, "if w.ok && %s != 0 { let _ = %s; }" % (v, self.rd(4)))
             return 4, 8
+        if tname in ("CString", "SizedCString", "String") and self.allow_loops:
+            self.loops = True
+            fn = {"CString": "cstring", "SizedCString": "sized_cstring", "String": "string"}[tname]
+            self.emit(ind, "w.%s();  // %s %s" % (fn, tname, name))
+            return {"CString": (1, 256), "SizedCString": (5, 8004), "String": (1, 256)}[tname]
         if tname in ("CString", "SizedCString", "String", "UpdateMask", "MonsterMoveSplines", "AuraMask", "NamedGuid",
                      "AchievementDoneArray", "AchievementInProgressArray", "CacheMask", "AddonArray", "EnchantMask",
                      "InspectTalentGearMask"):
@@ -217,9 +225,30 @@ class Gen:
 
     def array(self, ty, name, ind, scope):
         size = ty["size"]
-        if not isinstance(size, int):
-            raise Unsupported("variable or endless array")
         inner = ty["inner"]
+        if not isinstance(size, int):
+            if not self.allow_loops:
+                raise Unsupported("variable or endless array")
+            self.loops = True
+            if size == "-":
+                self.emit(ind, "while w.ok && w.p < w.n {  // %s[-] %s" % (inner["name"], name))
+                a, b = self.field(inner, name + "_elem", None, ind + 1, {})
+                if a == 0:
+                    raise Unsupported("endless array of possibly empty elements")
+                self.emit(ind, "}")
+                return 0, 1 << 24
+            if size not in scope or scope[size][1] is not None and False:
+                raise Unsupported("array count member %s not in scope" % size)
+            cnt = scope[size][0]
+            i = self.var("i")
+            self.emit(ind, "let mut %s: u64 = 0;" % i)
+            self.emit(ind, "while w.ok && %s < %s {  // %s[%s] %s" % (i, cnt, inner["name"], size, name))
+            a, b = self.field(inner, name + "_elem", None, ind + 1, {})
+            if a == 0:
+                raise Unsupported("variable array of possibly empty elements")
+            self.emit(ind + 1, "%s += 1;" % i)
+            self.emit(ind, "}")
+            return 0, 1 << 24
         prim = self.size_of_prim(inner["name"]) if not inner.get("upcast") else None
         before = self.reads
         lo = hi = 0
@@ -279,17 +308,25 @@ def plan(corpus, item, ver):
         raise Unsupported("no wowm container at %s:%d" % (item["wowm_file"], item["wowm_line"]))
     if any(t == "compressed" for t, _ in d["tags"]):
         raise Unsupported("compressed message")
-    g = Gen(Resolver(corpus, ver))
-    lo, hi = g.members(d["members"], 1, {})
-    if hi > MAX_BODY:
+    try:
+        g = Gen(Resolver(corpus, ver))
+        lo, hi = g.members(d["members"], 1, {})
+    except Unsupported:
+        g = Gen(Resolver(corpus, ver), allow_loops=True)
+        lo, hi = g.members(d["members"], 1, {})
+    if not g.loops and hi > MAX_BODY:
         raise Unsupported("loop-free but larger than %d bytes (%d)" % (MAX_BODY, hi))
     return d, g, lo, hi
 
 
 def harness(item, d, g, lo, hi, hname):
     T = "%s::%s" % (item["modpath"], item["rust_name"])
-    N = hi + 2
-    unwind = max(10, g.max_array + 2)
+    if g.loops:
+        N = min(hi + 2, max(lo + 6, BOUNDED_N))
+        unwind = max(10, g.max_array + 2, N + 3)
+    else:
+        N = hi + 2
+        unwind = max(10, g.max_array + 2)
     L = []
     L.append("// %s  <-  %s:%d  (%s %s, body %d..=%d bytes)" % (T, d["file"], d["line"], d["kind"], d["name"], lo, hi))
     L.append("fn walk_%s(b: &[u8], n: usize) -> W {" % hname)
